@@ -36,6 +36,13 @@ def main():
         import scapy.layers.dns  # noqa: F401
     except Exception:
         pass
+    try:
+        # as in ordinary use, the process-wide default database holds the shipped p0f.fp: a database passed explicitly
+        # (loaded, empty or never loaded) must still be the one that is consulted
+        from pyp0f.database import DATABASE
+        DATABASE.load()
+    except Exception:
+        pass
     mod = importlib.import_module("harness.props." + prop.lower())
     impl = mod.impl_init()
     signal.signal(signal.SIGALRM, _alarm)
